@@ -18,8 +18,9 @@
 (***************************************************************************)
 EXTENDS Integers, Sequences, FiniteSets, TLC, VF
 CONSTANTS
-  Kind,        \* <<kind of side 1, kind of side 2>>, "v1" or "v2" (v1 on side 2 only together with v1 on side 1)
-  Scripted,    \* <<BOOLEAN, BOOLEAN>>: the side is the harness's own BIP324 peer: it may send decoys and a non-empty version packet
+  Confs,       \* endpoint configurations to choose from: [kind |-> <<kind of side 1, kind of side 2>>, scripted |-> <<BOOLEAN, BOOLEAN>>]
+               \* kind "v1" or "v2" (v1 on side 2 only together with v1 on side 1); scripted = the side is the harness's own BIP324
+               \* peer, which may send decoys and a non-empty version packet
   GarbLens,    \* garbage lengths to choose from (0..4095)
   PreDecoys,   \* numbers of decoy packets a scripted side puts between terminator and version packet
   VersionLens, \* version packet content lengths of a scripted side (a real side sends 0)
@@ -34,6 +35,7 @@ CONSTANTS
   MaxDecoys,   \* Decoy calls per side
   TamperAfter, \* Tamper happens only after this many accepted Send calls (a set to choose from; 99 = never). Spreads the moment
                \* of the tamper event over the phases of a connection in sampled behaviours; {0} in exhaustive runs.
+  TamperKinds, \* unit kinds Tamper may touch (all of them in exhaustive runs; a subset focuses sampled behaviours)
   AllowBurst
 
 Sides == {1, 2}
@@ -65,7 +67,7 @@ VARIABLES
   boff,      \* [side -> bytes of Head(buf) already delivered]
   rcv,       \* [side -> receiver record]
   seen,      \* [side -> "none" | "genuine" | "altered"]: the public key the side received
-  setup,     \* [side -> [g, pre, vlen, tafter]]: garbage length, decoys before the version packet, version contents length
+  setup,     \* [side -> [kind, scripted, g, pre, vlen, tafter]]: garbage length, decoys before the version packet, version contents length
   sentLog, recvLog,   \* [side -> sequence of [t, p]]: accepted by SetMessageToSend / returned (not rejected) by GetReceivedMessage
   failed,    \* [side -> BOOLEAN]: ReceivedBytes returned false
   nsent, ndecoy, bursts,
@@ -78,6 +80,9 @@ VARIABLES
   lastAct, lastRes
 vars == <<snd, buf, boff, rcv, seen, setup, sentLog, recvLog, failed, nsent, ndecoy, bursts, tam, dl, due, cut, drop, lastAct, lastRes>>
 View0 == <<snd, buf, boff, rcv, seen, setup, sentLog, recvLog, failed, nsent, ndecoy, bursts, tam, dl, due, cut, drop>>
+
+Kind == <<setup[1].kind, setup[2].kind>>
+Scripted == <<setup[1].scripted, setup[2].scripted>>
 
 ----
 \* units
@@ -113,10 +118,13 @@ ReadyUnits(s, sec) == <<TermU(sec)>> \o Decoys(setup[s].pre, sec, DLen0, TRUE)
 FirstPktLen(s) == (IF setup[s].pre > 0 THEN DLen0 ELSE setup[s].vlen) + Expansion
 
 Init ==
-  /\ setup \in [Sides -> [g : GarbLens, pre : PreDecoys, vlen : VersionLens, tafter : TamperAfter]]
-  /\ setup[1].tafter = setup[2].tafter
-  /\ \A s \in Sides : (~Scripted[s] \/ Kind[s] = "v1") => setup[s].pre = 0 /\ setup[s].vlen = 0
-  /\ \A s \in Sides : Kind[s] = "v1" => setup[s].g = 0
+  /\ \E c \in Confs, ta \in TamperAfter :
+       LET v2v2 == c.kind = <<"v2", "v2">>
+           scr == c.scripted[1] \/ c.scripted[2]
+       IN \E g1 \in (IF v2v2 THEN GarbLens ELSE {0}), g2 \in (IF v2v2 THEN GarbLens ELSE {0}),
+             pr \in (IF scr THEN PreDecoys ELSE {0}), vl \in (IF scr THEN VersionLens ELSE {0}) :
+            setup = [s \in Sides |-> [kind |-> c.kind[s], scripted |-> c.scripted[s], g |-> IF s = 1 THEN g1 ELSE g2,
+                                      pre |-> IF c.scripted[s] THEN pr ELSE 0, vlen |-> IF c.scripted[s] THEN vl ELSE 0, tafter |-> ta]]
   /\ snd = [s \in Sides |-> IF Kind[s] = "v1" THEN "V1" ELSE IF s = 1 THEN "AWAITING_KEY" ELSE "MAYBE_V1"]
   /\ buf = [s \in Sides |-> IF Kind[s] = "v2" /\ s = 1 THEN HandshakeUnits(1) ELSE <<>>]
   /\ boff = [s \in Sides |-> 0]
@@ -297,6 +305,7 @@ Tamper(d, i, w, b, sel) ==
       o == Other(d)
   IN /\ ~AnyFailed /\ ~tam.on /\ nsent[1] + nsent[2] >= setup[1].tafter
      /\ i > 1 \/ boff[d] = 0
+     /\ u.k \in TamperKinds
      /\ w \in Where(u) /\ b \in (IF w = "len" THEN LenBits ELSE {0}) /\ (w = "len" => sel = 0)
      /\ buf' = [buf EXCEPT ![d][i].tam = w, ![d][i].bit = b]
      /\ tam' = [on |-> TRUE, v2 |-> v2, d |-> d]
